@@ -332,12 +332,8 @@ func zzDispatch(lk, rk int) {
 		zzAssertExcept(zzAnd(zzAnd(fits, got == want), zzNot(minq)), id+".floor", zzOr(adj, minq))
 
 	// ---- everything else is undocumented and must be rejected
-	case op == syntax.MINUS && lk == zzKD && rk == zzKT:
-		// known: evaluated as time - duration
-		zzAssertExcept(err != nil, id+".rejected", true)
-	case op == syntax.SLASH && lk == zzKF && rk == zzKD:
-		// known: evaluated as duration / float (x.f == 0 is rejected as division by zero)
-		zzAssertExcept(err != nil, id+".rejected", x.f != 0)
+	// (duration - time used to evaluate time - duration, and float / duration used to evaluate
+	// duration / float: both fixed in /repo, see known_findings.json "fixed")
 	default:
 		zzAssert(err != nil, id+".rejected")
 	}
